@@ -5,7 +5,16 @@ package mqttproxy
 // real 200 ms resend ticker) and raw MQTT clients speaking the paho packets codec over TCP.
 // Messages are injected through Broker.httpTopicsPublishHandler; clients acknowledge at once,
 // after the first retransmission, or never; clients also send QoS0/QoS1 PUBLISH packets that go
-// through the publish limiter and a recording Publish pipeline (topics "drop/…" are dropped by it).
+// through the publish limiter and a recording Publish pipeline (topics "drop/…" are dropped by it),
+// spaced or as one burst in a single TCP write. Before the messages some clients unsubscribe or
+// disconnect again (delivery is checked after routing-state changes).
+//
+// Nothing here asserts an upper time bound. Ordering facts are obtained from PINGREQ/PINGRESP round
+// trips (the broker's read loop handles a connection's packets one after the other and its writeCh is
+// FIFO): a PINGRESP proves that everything the broker queued for this client before it, and every
+// packet of this client before the PINGREQ, has been dealt with. Retransmission is awaited with a
+// canary ticker of the same 200 ms period running in this process: "no retransmission" is reported
+// as such only after the canary itself has fired at least 10 times.
 
 import (
 	"bytes"
@@ -29,6 +38,9 @@ type c15wClient struct {
 	ID   string   `json:"id"`
 	Subs []c15Sub `json:"subs"`
 	Ack  string   `json:"ack"` // now | late (after the first retransmission) | never
+	// history before the messages: UNSUBSCRIBE these filters / leave (DISCONNECT) after everybody subscribed
+	Unsub []string `json:"unsub,omitempty"`
+	Leave bool     `json:"leave,omitempty"`
 }
 
 type c15wMsg struct {
@@ -48,6 +60,7 @@ type c15wInput struct {
 	Clients  []c15wClient  `json:"clients"`
 	Msgs     []c15wMsg     `json:"msgs"`
 	Inbound  []c15wInbound `json:"inbound"`
+	Burst    bool          `json:"burst,omitempty"` // each client writes all its PUBLISH packets in one TCP write
 	Limit    int           `json:"limit"`     // ClientPublishLimit.RequestRate per 1000 s (0 = no limiter)
 	WindowMs int           `json:"window_ms"` // observation time after the last injection
 }
@@ -61,9 +74,13 @@ type c15wPipe struct {
 
 type c15wObs struct {
 	HTTP    []int               `json:"http"`
-	Rx      map[string][]string `json:"rx"`      // client -> PUBLISH packets "id:qos:payload" in arrival order
+	// client -> arrival order of PUBLISH packets "id:qos:payload" and of the markers "!ack:<id>" (the broker has
+	// provably processed our PUBACK for <id>) and "!barrier" (PINGRESP of a barrier PINGREQ)
+	Rx      map[string][]string `json:"rx"`
+	Canary  int                 `json:"canary"` // ticks of the in-process 200 ms canary during the retransmission watch
 	Pubacks map[string][]int    `json:"pubacks"` // client -> ids of PUBACKs received
 	Pipe    []c15wPipe          `json:"pipe"`    // calls seen by the Publish pipeline
+	Waited  int                 `json:"waited_ms"` // how long the harness observed after the last injection
 	Err     string              `json:"err,omitempty"`
 }
 
@@ -92,22 +109,49 @@ type c15wMapper struct{ h context.Handler }
 func (m *c15wMapper) GetHandler(name string) (context.Handler, bool) { return m.h, true }
 
 type c15wConn struct {
-	id   string
-	ack  string
-	conn net.Conn
-	wmu  sync.Mutex
-	mu   sync.Mutex
-	rx   []string
-	seen map[uint16]int
-	acks []int
-	done chan struct{}
+	id    string
+	ack   string
+	conn  net.Conn
+	wmu   sync.Mutex // serialises writes and the queue of ping purposes
+	pings []string
+	mu    sync.Mutex
+	rx    []string
+	seen  map[uint16]int
+	acks  []int
+	nbar  int
+	done  chan struct{}
 }
+
+const c15wIOTimeout = 30 * time.Second
 
 func (c *c15wConn) write(p packets.ControlPacket) error {
 	c.wmu.Lock()
 	defer c.wmu.Unlock()
-	c.conn.SetWriteDeadline(time.Now().Add(2 * time.Second))
+	c.conn.SetWriteDeadline(time.Now().Add(c15wIOTimeout))
 	return p.Write(c.conn)
+}
+
+func (c *c15wConn) writeRaw(b []byte) error {
+	c.wmu.Lock()
+	defer c.wmu.Unlock()
+	c.conn.SetWriteDeadline(time.Now().Add(c15wIOTimeout))
+	_, err := c.conn.Write(b)
+	return err
+}
+
+// ping sends a PINGREQ whose PINGRESP will be logged with the given purpose.
+func (c *c15wConn) ping(purpose string) error {
+	c.wmu.Lock()
+	defer c.wmu.Unlock()
+	c.pings = append(c.pings, purpose)
+	c.conn.SetWriteDeadline(time.Now().Add(c15wIOTimeout))
+	return packets.NewControlPacket(packets.Pingreq).Write(c.conn)
+}
+
+func (c *c15wConn) barriers() int {
+	c.mu.Lock()
+	defer c.mu.Unlock()
+	return c.nbar
 }
 
 func (c *c15wConn) readLoop() {
@@ -121,24 +165,42 @@ func (c *c15wConn) readLoop() {
 		case *packets.PublishPacket:
 			c.mu.Lock()
 			c.rx = append(c.rx, fmt.Sprintf("%d:%d:%s", pk.MessageID, pk.Qos, string(pk.Payload)))
-			c.seen[pk.MessageID]++
-			n := c.seen[pk.MessageID]
+			n := 0
+			if pk.Qos == 1 {
+				c.seen[pk.MessageID]++
+				n = c.seen[pk.MessageID]
+			}
 			c.mu.Unlock()
-			if pk.Qos == 1 && (c.ack == "now" || (c.ack == "late" && n >= 2)) {
+			if pk.Qos == 1 && ((c.ack == "now" && n == 1) || (c.ack == "late" && n == 2)) {
 				a := packets.NewControlPacket(packets.Puback).(*packets.PubackPacket)
 				a.MessageID = pk.MessageID
 				c.write(a)
+				c.ping(fmt.Sprintf("ack:%d", pk.MessageID))
 			}
 		case *packets.PubackPacket:
 			c.mu.Lock()
 			c.acks = append(c.acks, int(pk.MessageID))
+			c.mu.Unlock()
+		case *packets.PingrespPacket:
+			c.wmu.Lock()
+			purpose := ""
+			if len(c.pings) > 0 {
+				purpose = c.pings[0]
+				c.pings = c.pings[1:]
+			}
+			c.wmu.Unlock()
+			c.mu.Lock()
+			if purpose == "barrier" {
+				c.nbar++
+			}
+			c.rx = append(c.rx, "!"+purpose)
 			c.mu.Unlock()
 		}
 	}
 }
 
 func c15wDial(addr string, cl c15wClient) (*c15wConn, error) {
-	conn, err := net.DialTimeout("tcp", addr, 2*time.Second)
+	conn, err := net.DialTimeout("tcp", addr, c15wIOTimeout)
 	if err != nil {
 		return nil, err
 	}
@@ -152,7 +214,7 @@ func c15wDial(addr string, cl c15wClient) (*c15wConn, error) {
 	if err := c.write(connect); err != nil {
 		return nil, err
 	}
-	conn.SetReadDeadline(time.Now().Add(3 * time.Second))
+	conn.SetReadDeadline(time.Now().Add(c15wIOTimeout))
 	p, err := packets.ReadPacket(conn)
 	if err != nil {
 		return nil, err
@@ -178,9 +240,19 @@ func c15wDial(addr string, cl c15wClient) (*c15wConn, error) {
 			return nil, fmt.Errorf("no suback")
 		}
 	}
-	conn.SetReadDeadline(time.Time{})
-	go c.readLoop()
 	return c, nil
+}
+
+// c15wWait polls cond (generously: the box may be slow) and reports whether it became true.
+func c15wWait(cond func() bool) bool {
+	deadline := time.Now().Add(c15wIOTimeout)
+	for !cond() {
+		if time.Now().After(deadline) {
+			return false
+		}
+		time.Sleep(2 * time.Millisecond)
+	}
+	return true
 }
 
 func c15wExec(raw json.RawMessage) interface{} {
@@ -203,7 +275,7 @@ func c15wExec(raw json.RawMessage) interface{} {
 	}
 	b := newBroker(spec, newStorage(nil), &c15wMapper{h: rec}, func(string, string) ([]string, error) { return nil, nil })
 	if b == nil {
-		obs.Err = "broker-nil"
+		obs.Err = "inconclusive: broker-nil"
 		return obs
 	}
 	defer b.close()
@@ -213,45 +285,194 @@ func c15wExec(raw json.RawMessage) interface{} {
 	}
 	conns := map[string]*c15wConn{}
 	var order []string
+	defer func() {
+		for _, c := range conns {
+			c.conn.Close()
+		}
+	}()
 	for _, cl := range in.Clients {
 		if cl.ID == "" || conns[cl.ID] != nil {
 			continue
 		}
 		c, err := c15wDial(addr, cl)
 		if err != nil {
-			obs.Err = "dial " + cl.ID + ": " + err.Error()
+			obs.Err = "inconclusive: dial " + cl.ID + ": " + err.Error()
 			return obs
 		}
 		conns[cl.ID] = c
 		order = append(order, cl.ID)
 	}
-	defer func() {
-		for _, c := range conns {
-			c.conn.Close()
+	// history before the messages (no reader goroutines yet: nothing else can arrive on the connections)
+	seenCl := map[string]bool{}
+	for _, cl := range in.Clients {
+		c := conns[cl.ID]
+		if c == nil || seenCl[cl.ID] {
+			continue
 		}
-	}()
+		seenCl[cl.ID] = true
+		if len(cl.Unsub) > 0 {
+			un := packets.NewControlPacket(packets.Unsubscribe).(*packets.UnsubscribePacket)
+			un.MessageID = 2
+			un.Topics = append([]string{}, cl.Unsub...)
+			if err := c.write(un); err != nil {
+				obs.Err = "inconclusive: unsubscribe " + cl.ID
+				return obs
+			}
+			c.conn.SetReadDeadline(time.Now().Add(c15wIOTimeout))
+			p, err := packets.ReadPacket(c.conn)
+			if _, ok := p.(*packets.UnsubackPacket); err != nil || !ok {
+				obs.Err = "inconclusive: no unsuback " + cl.ID
+				return obs
+			}
+		}
+	}
+	seenCl = map[string]bool{}
+	for _, cl := range in.Clients {
+		c := conns[cl.ID]
+		if c == nil || seenCl[cl.ID] || !cl.Leave {
+			continue
+		}
+		seenCl[cl.ID] = true
+		c.write(packets.NewControlPacket(packets.Disconnect))
+		c.conn.Close()
+		delete(conns, cl.ID)
+		for i, id := range order {
+			if id == cl.ID {
+				order = append(order[:i:i], order[i+1:]...)
+				break
+			}
+		}
+		id := cl.ID
+		// the broker removes the client (after closeAndDelSession) at the end of its read loop
+		if !c15wWait(func() bool { return b.getClient(id) == nil }) {
+			obs.Err = "inconclusive: broker did not finish the disconnect of " + id
+			return obs
+		}
+	}
+	for _, id := range order {
+		conns[id].conn.SetReadDeadline(time.Time{})
+		go conns[id].readLoop()
+	}
+	// messages
 	for _, m := range in.Msgs {
 		body, _ := json.Marshal(HTTPJsonData{Topic: m.Topic, QoS: m.QoS, Payload: m.Payload, Distributed: true})
 		req := httptest.NewRequest(http.MethodPost, "http://verif/mqtt", bytes.NewReader(body))
 		w := httptest.NewRecorder()
 		b.httpTopicsPublishHandler(w, req)
 		obs.HTTP = append(obs.HTTP, w.Code)
-		time.Sleep(8 * time.Millisecond)
+		time.Sleep(5 * time.Millisecond)
 	}
-	for _, ib := range in.Inbound {
-		c := conns[ib.C]
-		if c == nil {
-			continue
+	// barrier 1: all fan-outs finished (every copy is queued), then one round trip per client
+	fanoutsDone := c15wWait(func() bool { return !c15FanoutRunning() })
+	if fanoutsDone {
+		for _, id := range order {
+			conns[id].ping("barrier")
 		}
-		p := packets.NewControlPacket(packets.Publish).(*packets.PublishPacket)
-		p.TopicName = ib.Topic
-		p.Qos = byte(ib.QoS)
-		p.MessageID = uint16(ib.ID)
-		p.Payload = []byte("up")
-		c.write(p)
-		time.Sleep(3 * time.Millisecond)
+		c15wWait(func() bool {
+			for _, id := range order {
+				if conns[id].barriers() < 1 {
+					return false
+				}
+			}
+			return true
+		})
 	}
+	// client PUBLISH packets, then barrier 2
+	per := map[string][]c15wInbound{}
+	for _, ib := range in.Inbound {
+		if conns[ib.C] != nil {
+			per[ib.C] = append(per[ib.C], ib)
+		}
+	}
+	for _, id := range order {
+		c := conns[id]
+		var burst bytes.Buffer
+		for _, ib := range per[id] {
+			p := packets.NewControlPacket(packets.Publish).(*packets.PublishPacket)
+			p.TopicName = ib.Topic
+			p.Qos = byte(ib.QoS)
+			p.MessageID = uint16(ib.ID)
+			p.Payload = []byte("up")
+			if in.Burst {
+				p.Write(&burst)
+			} else {
+				c.write(p)
+				time.Sleep(2 * time.Millisecond)
+			}
+		}
+		if burst.Len() > 0 {
+			c.writeRaw(burst.Bytes())
+		}
+		if fanoutsDone {
+			c.ping("barrier")
+		}
+	}
+	if fanoutsDone {
+		c15wWait(func() bool {
+			for _, id := range order {
+				if conns[id].barriers() < 2 {
+					return false
+				}
+			}
+			return true
+		})
+	}
+	// retransmission watch: window_ms, extended while a client that withholds its PUBACK has not yet seen a
+	// retransmission of its oldest QoS1 packet and the canary (same period as the broker's ticker) has
+	// fired fewer than 12 times. The judge decides; it treats fewer than 10 canary ticks as inconclusive.
+	var cmu sync.Mutex
+	canary := 0
+	stop := make(chan struct{})
+	go func() {
+		t := time.NewTicker(200 * time.Millisecond)
+		defer t.Stop()
+		for {
+			select {
+			case <-stop:
+				return
+			case <-t.C:
+				cmu.Lock()
+				canary++
+				cmu.Unlock()
+			}
+		}
+	}()
+	start := time.Now()
 	time.Sleep(time.Duration(in.WindowMs) * time.Millisecond)
+	for time.Since(start) < 60*time.Second {
+		waiting := false
+		for _, id := range order {
+			c := conns[id]
+			if c.ack == "now" {
+				continue
+			}
+			c.mu.Lock()
+			first := -1
+			for _, r := range c.rx {
+				var pid, q int
+				if _, err := fmt.Sscanf(r, "%d:%d:", &pid, &q); err == nil && q == 1 {
+					first = pid
+					break
+				}
+			}
+			if first >= 0 && c.seen[uint16(first)] < 2 {
+				waiting = true
+			}
+			c.mu.Unlock()
+		}
+		cmu.Lock()
+		n := canary
+		cmu.Unlock()
+		if !waiting || n >= 12 {
+			break
+		}
+		time.Sleep(50 * time.Millisecond)
+	}
+	close(stop)
+	cmu.Lock()
+	obs.Canary = canary
+	cmu.Unlock()
+	obs.Waited = int(time.Since(start) / time.Millisecond)
 	for _, id := range order {
 		c := conns[id]
 		c.mu.Lock()
@@ -272,13 +493,34 @@ func c15wGen(r *verifh.Rand, i int) interface{} {
 		cl := c15wClient{ID: fmt.Sprintf("w%d", k), Ack: r.Pick("now", "now", "late", "never", "never")}
 		ns := r.PickInt(1, 1, 2, 3)
 		for j := 0; j < ns; j++ {
-			cl.Subs = append(cl.Subs, c15Sub{F: r.Pick("t/a", "t/+", "t/#", "+/a", "#", "t/b", "t/a/#"), Q: r.PickInt(0, 1, 1)})
+			cl.Subs = append(cl.Subs, c15Sub{F: r.Pick("t/a", "t/a", "t/+", "t/#", "+/a", "#", "t/b", "t/a/#", "t/a/x", "t/a/+"), Q: r.PickInt(0, 1, 1)})
+		}
+		// history: some subscribers unsubscribe or leave before the messages
+		switch r.Intn(6) {
+		case 0:
+			cl.Leave = true
+		case 1, 2:
+			cl.Unsub = append(cl.Unsub, cl.Subs[r.Intn(len(cl.Subs))].F)
 		}
 		in.Clients = append(in.Clients, cl)
 	}
 	nm := r.Range(1, 6)
 	for k := 0; k < nm; k++ {
-		in.Msgs = append(in.Msgs, c15wMsg{Topic: r.Pick("t/a", "t/a", "t/b", "x"), QoS: r.PickInt(0, 1, 1, 1), Payload: fmt.Sprintf("m%d", k)})
+		in.Msgs = append(in.Msgs, c15wMsg{Topic: r.Pick("t/a", "t/a", "t/a/x", "t/b", "x"), QoS: r.PickInt(0, 1, 1, 1), Payload: fmt.Sprintf("m%d", k)})
+	}
+	if r.Bool(1, 2) {
+		// a burst of QoS1 PUBLISH packets with consecutive ids from one client, in one TCP write
+		in.Burst = true
+		c := fmt.Sprintf("w%d", r.Intn(n))
+		base := r.PickInt(1, 11, 300, 65530)
+		for k := r.Range(3, 8); k > 0; k-- {
+			in.Inbound = append(in.Inbound, c15wInbound{C: c, Topic: r.Pick("up/x", "up/x", "up/y", "drop/x"), QoS: r.PickInt(1, 1, 1, 0), ID: base % 65536})
+			base++
+		}
+		if r.Bool(1, 4) {
+			in.Limit = r.PickInt(2, 3, 5)
+		}
+		return in
 	}
 	if r.Bool(1, 2) {
 		in.Limit = r.PickInt(1, 2, 3)
@@ -292,5 +534,5 @@ func c15wGen(r *verifh.Rand, i int) interface{} {
 }
 
 func TestVerifC15Wire(t *testing.T) {
-	verifh.Run(t, c15wGen, c15wExec, 30*time.Second)
+	verifh.Run(t, c15wGen, c15wExec, 150*time.Second)
 }
